@@ -22,6 +22,14 @@ func init() {
 			"copies: {Clone, Materialize, SafeT, tensor.T, tensor.Transpose, tensor.Copy, CopyTo, ToMat64/FromMat64 safe+unsafe, native.Vector/Matrix/Tensor3/Select} x all 11 source layouts: logical equality, address-range disjointness and a two-way write probe. " +
 			"distinct_nontrivial counts distinct (operation, layout, dtype, shape class) keys on tensors with more than one element.",
 		Assume: []string{"value correctness of arithmetic results is decided by C06/C07/C12; here only where the bytes go", "an operation may refuse (error, nothing written) a view it does not support; refusals are tallied"},
+		// the copies and block moves go through unsafe and reflect.SliceHeader: the thorough tier repeats the workload under
+		// AddressSanitizer (a report ends the child; the parent turns it into a process-fatal violation naming the open case)
+		Flavours: func(tier string) []string {
+			if tier == "thorough" {
+				return []string{"plain", "asan"}
+			}
+			return []string{"plain"}
+		},
 		Groups: c04Groups,
 	})
 }
